@@ -30,6 +30,12 @@ TempNext == /\ \/ last.a \in {"init", "rejuvenate"}
                \/ last.a = "settemp" /\ \E l \in Levels, i \in 1..N : Exclude(l, i)
                \/ last.a = "exclude" /\ Rejuvenate
             /\ h' = Append(h, last')
+\* configuration run: the root's data/configuration version changes, an event
+\* is excluded on some level, then the youngest member is refreshed
+ConfNext == /\ \/ last.a \in {"init", "rejuvenate"} /\ \E v \in {1, 2} : SetRootVer(v)
+               \/ last.a = "rootver" /\ \E l \in Levels, i \in 1..N : Exclude(l, i)
+               \/ last.a = "exclude" /\ Rejuvenate
+            /\ h' = Append(h, last')
 Emit == (Len(h) = MaxDepth) => PrintT(<<"H", ToJson(h)>>)
 HCon == Len(h) <= MaxDepth /\ Emit
 =============================================================================
